@@ -70,6 +70,12 @@ S9 = {"flavor": "int", "kind": "intcountervec", "keys": [], "maxid": 0, "threads
 # and after): both requests must still get the same child
 S10 = {"flavor": "int", "kind": "intcountervec", "keys": ["k", "f"], "maxid": 4, "threads": ["t1", "t2", "t3"], "pre": [W("f", 0)],
        "scripts": {"t1": [W("k"), HI(0, 1)], "t2": [W("k"), HI(0, 2)], "t3": [RM("f"), CO]}}
+# the same races with requests arriving through the labels-map entry points (with / get_metric_with / remove) and mixed with the positional ones
+def WM(key, h=0): return {"k": "with", "key": key, "h": h, "form": "map"}
+def RMM(key): return {"k": "remove", "key": key, "form": "map"}
+S1m = dict(S1, scripts={"t1": [WM("a"), HI(0, 1), CO], "t2": [W("a"), HI(0, 2), WM("b", 1)]})
+S6m = dict(S6, scripts={"t1": [WM("a"), HI(0, 1), RMM("a"), CO], "t2": [WM("a"), RM("a"), HI(0, 2)]})
+S10m = dict(S10, scripts={"t1": [WM("k"), HI(0, 1)], "t2": [WM("k"), HI(0, 2)], "t3": [RMM("f"), CO]})
 INVS = "LockSafety OneChildPerKey FreshHandleIsCurrent IdsBounded"
 
 
@@ -198,6 +204,8 @@ def run(ctx):
         run_scenario(ctx, exe, S6, "S6", stats, samples, nrandom=300, kinds=["intcountervec"])
         run_scenario(ctx, exe, S8, "S8", stats, samples, model=False, check=False, nrandom=40, kinds=["intcountervec"], pb=(2, 40))
         run_scenario(ctx, exe, S10, "S10", stats, samples, model=False, check=False, nrandom=200, kinds=["intcountervec"], pb=(2, 500))
+        for sc, lb in ((S1m, "S1m"), (S6m, "S6m"), (S10m, "S10m")):
+            run_scenario(ctx, exe, sc, lb, stats, samples, model=False, check=False, nrandom=100, kinds=["intcountervec", "countervec"] if lb == "S1m" else ["intcountervec"], pb=(2, 300))
         run_scenario(ctx, exe, S9, "S9", stats, samples, model=False, check=False, nrandom=6, kinds=["intcountervec"], pb=(1, 24))
         # composition: a vector of HISTOGRAMS (children are sharded histograms, updates are observe calls)
         run_scenario(ctx, exe, S2, "S2h", stats, samples, model=False, check=False, nrandom=150, kinds=["histogramvec"])
@@ -206,6 +214,8 @@ def run(ctx):
             run_scenario(ctx, exe, sc, lb, stats, samples, model=False, check=False, nrandom=3000, kinds=["histogramvec"])
         run_scenario(ctx, exe, S8, "S8", stats, samples, model=False, check=False, nrandom=1500, kinds=["intcountervec", "countervec"], pb=(2, 1500))
         run_scenario(ctx, exe, S10, "S10", stats, samples, model=False, check=False, nrandom=5000, kinds=["intcountervec", "countervec"], pb=(3, 20000))
+        for sc, lb in ((S1m, "S1m"), (S6m, "S6m"), (S10m, "S10m")):
+            run_scenario(ctx, exe, sc, lb, stats, samples, model=False, check=False, nrandom=3000, kinds=["intcountervec", "countervec", "histogramvec"], pb=(3, 10000))
         run_scenario(ctx, exe, S9, "S9", stats, samples, model=False, check=False, nrandom=100, kinds=["intcountervec", "countervec"], pb=(2, 600))
         run_scenario(ctx, exe, S6, "S6", stats, samples, nrandom=3000, kinds=["intcountervec", "countervec"])
         run_scenario(ctx, exe, S7, "S7", stats, samples, model=False, nrandom=10000, kinds=["intcountervec"])
